@@ -20,7 +20,7 @@ fn plain(v: &V) -> Vec<u8> { let mut s = Src::replay(&[]); let mut p = Printer::
 
 #[derive(Debug)]
 struct Case {
-    v: V, position: u8, n_members: usize, trailing_ws: u8, pad_first: usize, filters: Vec<u8>, filter_tape: Vec<u32>,
+    v: V, position: u8, n_members: usize, trailing_ws: u8, pad_first: usize, header_tight: bool, filters: Vec<u8>, filter_tape: Vec<u32>,
     // stream part
     stream_data: Vec<u8>, length_mode: u8,
 }
@@ -38,13 +38,14 @@ fn gen_case(s: &mut Src) -> Case {
     // members may also follow each other without any white-space: the offsets in the header delimit them
     let trailing_ws = match s.alt(2, &["trailing_ws", "no_trailing_ws", "members_not_separated"]) { 0 => 0u8, 1 => 1, _ => 2 };
     let pad_first = if s.alt(3, &["first_tight", "first_padded"]) == 1 { 1 + s.draw(3) as usize } else { 0 };
+    let header_tight = s.alt(3, &["header_then_space", "header_touches_first_object"]) == 1;
     let nf = s.alt(2, &["objstm_unfiltered", "objstm_one_filter", "objstm_two_filters"]);
     let mut filters = Vec::new();
     for _ in 0..nf { let k = s.draw(5) as u8; s.label(["f_AHx", "f_A85", "f_RL", "f_LZW", "f_Flate"][k as usize]); filters.push(k); }
     let filter_tape: Vec<u32> = (0..24).map(|_| s.draw(64)).collect();
     let stream_data = s.bytes(50);
     let length_mode = s.alt(2, &["length_direct", "length_ref_direct", "length_ref_compressed"]) as u8;
-    Case { v, position, n_members, trailing_ws, pad_first, filters, filter_tape, stream_data, length_mode }
+    Case { v, position, n_members, trailing_ws, pad_first, header_tight, filters, filter_tape, stream_data, length_mode }
 }
 
 fn encode_chain(filters: &[u8], tape: &[u32], data: &[u8]) -> (Vec<(Vec<u8>, Obj)>, Vec<u8>) {
@@ -79,13 +80,12 @@ fn build(c: &Case) -> (Vec<u8>, Vec<u8>) {
         let idx = match c.position { 0 => 0, 1 => c.n_members / 2, _ => c.n_members - 1 };
         for i in 0..c.n_members {
             if i == idx { members.push((5, val.clone())); }
-            else { members.push((20 + i as u32, if i % 2 == 0 { Obj::Int(i as i64 * 7) } else { mkpdf::dict(vec![("F", Obj::Int(i as i64))]) })); }
+            else { members.push((20 + i as u32, if (i % 2 == 0) != c.header_tight { Obj::Int(i as i64 * 7) } else { mkpdf::dict(vec![("F", Obj::Int(i as i64))]) })); }
         }
         if c.length_mode == 2 { members.insert(0, (11, Obj::Int(c.stream_data.len() as i64))); }
         let tape = RefCell::new(c.filter_tape.clone());
         let enc = |d: &[u8]| encode_chain(&c.filters, &tape.borrow(), d);
-        if c.trailing_ws == 2 { objstm_tight(&mut w, 6, &members, c.pad_first, &enc); }
-        else { w.objstm(6, &members, if c.trailing_ws == 0 { b"\n" } else { b"" }, c.pad_first, &enc); }
+        match c.trailing_ws { 2 => objstm_ws(&mut w, 6, &members, None, c.pad_first, c.header_tight, &enc), 0 => objstm_ws(&mut w, 6, &members, Some(b"\n"), c.pad_first, c.header_tight, &enc), _ => objstm_ws(&mut w, 6, &members, Some(b""), c.pad_first, c.header_tight, &enc) }
         match c.length_mode {
             0 => w.obj(10, 0, &stream_obj(Obj::Int(c.stream_data.len() as i64))),
             1 => { w.obj(11, 0, &Obj::Int(c.stream_data.len() as i64)); w.obj(10, 0, &stream_obj(rf(11))); }
@@ -97,14 +97,21 @@ fn build(c: &Case) -> (Vec<u8>, Vec<u8>) {
     (a, b)
 }
 
-/// object stream whose members are written back to back with no separator at all
-fn objstm_tight(w: &mut W, nr: u32, members: &[(u32, Obj)], pad_first: usize, encode: &dyn Fn(&[u8]) -> (Vec<(Vec<u8>, Obj)>, Vec<u8>)) {
+/// object stream with full control over the white-space: `sep` between members (None = members back to back, the last one
+/// followed by nothing), `header_tight` = no white-space between the last integer of the header and the first object
+/// (legal when that object starts with a delimiter; `/First` then equals the length of the header text)
+fn objstm_ws(w: &mut W, nr: u32, members: &[(u32, Obj)], sep: Option<&[u8]>, pad_first: usize, header_tight: bool, encode: &dyn Fn(&[u8]) -> (Vec<(Vec<u8>, Obj)>, Vec<u8>)) {
     let mut body = Vec::new();
-    let mut head = Vec::new();
-    for (n, o) in members {
-        head.extend_from_slice(format!("{} {} ", n, body.len()).as_bytes());
+    let mut offs = Vec::new();
+    for (i, (n, o)) in members.iter().enumerate() {
+        offs.push((*n, body.len()));
         body.extend_from_slice(&mkpdf::obj_bytes(o));
+        match sep { None => {}, Some(s) => { if i + 1 < members.len() { body.extend_from_slice(if s.is_empty() { b" " } else { s }); } else { body.extend_from_slice(s); } } }
     }
+    let mut head = Vec::new();
+    for (i, (n, o)) in offs.iter().enumerate() { if i > 0 { head.push(b' '); } head.extend_from_slice(format!("{} {}", n, o).as_bytes()); }
+    let delim_first = body.first().map(|b| b"[<(/".contains(b)).unwrap_or(false);
+    if !(header_tight && pad_first == 0 && delim_first) { head.push(b' '); }
     for _ in 0..pad_first { head.push(b'\n'); }
     let first = head.len();
     let mut plain = head; plain.extend_from_slice(&body);
